@@ -120,29 +120,29 @@ var c02Triage = map[string]triage{
 
 // slices filled in map order whose consumers are order-insensitive or sort; keyed by loop key + "/" + slice name
 var c02AppendTriage = map[string]string{
-	"private/buf/buffetch/internal.getSingleRef/range map[string]string#1/invalidKeys":                                                                   "only used to build the invalid-keys error (error text)",
+	"private/buf/buffetch/internal.getSingleRef/range map[string]string#1/invalidKeys":                                                                                                    "only used to build the invalid-keys error (error text)",
 	"private/buf/bufgen.generator.execPlugins/range map[private/buf/bufgen.pluginConfigKeyForImage][]private/pkg/slicesext.Indexed[private/bufpkg/bufconfig.GeneratePluginConfig]#1/jobs": "job list for thread.Parallelize; every job stores its result at the plugin's own index (responses[index])",
-	"private/buf/bufworkspace.getMappedModuleBucketAndModuleTargeting/range map[string][]string#1/rootBuckets":                                          "v1beta1 multi-root union bucket: a path present under two roots is an error (ErrExistsMultipleLocations) whatever the order, and enumerations are re-sorted by AllPaths/Walk consumers",
-	"private/bufpkg/bufcheck/bufcheckserver/internal/bufcheckserverhandle.handleLintRPCRequestResponseUnique/range map[string]private/bufpkg/bufprotosource.Method#3/requestMethods":  "only iterated to add annotations (order-absorbing sink)",
-	"private/bufpkg/bufcheck/bufcheckserver/internal/bufcheckserverhandle.handleLintRPCRequestResponseUnique/range map[string]private/bufpkg/bufprotosource.Method#3/responseMethods": "only iterated to add annotations (order-absorbing sink)",
-	"private/bufpkg/bufmodule.selectRemoteAddedModuleForOpaqueIDIgnoreTargeting/range map[github.com/google/uuid.UUID][]*private/bufpkg/bufmodule.addedModule#1/uniqueAddedModules": "arg-max consumer: the module with the latest commit create time is selected; ties would need equal create times of distinct commits",
-	"private/pkg/slicesext.MapKeysToSlice/range map[K]V#1/s":   "documented unordered helper: every call site is an obligation of MAPORDER-SOURCE",
-	"private/pkg/slicesext.MapValuesToSlice/range map[K]V#1/s": "documented unordered helper: every call site is an obligation of MAPORDER-SOURCE",
-	"private/buf/bufmigrate.migrator.buildBufYAMLAndBufLockFiles/range map[string][]private/bufpkg/bufparse.Ref#2/resolvedDeclaredRefs":   "handed to bufconfig.NewBufYAMLFile, which sorts the dependency refs (SORT-CONSUMERS obligation)",
+	"private/buf/bufworkspace.getMappedModuleBucketAndModuleTargeting/range map[string][]string#1/rootBuckets":                                                                            "v1beta1 multi-root union bucket: a path present under two roots is an error (ErrExistsMultipleLocations) whatever the order, and enumerations are re-sorted by AllPaths/Walk consumers",
+	"private/bufpkg/bufcheck/bufcheckserver/internal/bufcheckserverhandle.handleLintRPCRequestResponseUnique/range map[string]private/bufpkg/bufprotosource.Method#3/requestMethods":      "only iterated to add annotations (order-absorbing sink)",
+	"private/bufpkg/bufcheck/bufcheckserver/internal/bufcheckserverhandle.handleLintRPCRequestResponseUnique/range map[string]private/bufpkg/bufprotosource.Method#3/responseMethods":     "only iterated to add annotations (order-absorbing sink)",
+	"private/bufpkg/bufmodule.selectRemoteAddedModuleForOpaqueIDIgnoreTargeting/range map[github.com/google/uuid.UUID][]*private/bufpkg/bufmodule.addedModule#1/uniqueAddedModules":       "arg-max consumer: the module with the latest commit create time is selected; ties would need equal create times of distinct commits",
+	"private/pkg/slicesext.MapKeysToSlice/range map[K]V#1/s":                                                                                  "documented unordered helper: every call site is an obligation of MAPORDER-SOURCE",
+	"private/pkg/slicesext.MapValuesToSlice/range map[K]V#1/s":                                                                                "documented unordered helper: every call site is an obligation of MAPORDER-SOURCE",
+	"private/buf/bufmigrate.migrator.buildBufYAMLAndBufLockFiles/range map[string][]private/bufpkg/bufparse.Ref#2/resolvedDeclaredRefs":       "handed to bufconfig.NewBufYAMLFile, which sorts the dependency refs (SORT-CONSUMERS obligation)",
 	"private/buf/bufmigrate.migrator.buildBufYAMLAndBufLockFiles/range map[string][]private/bufpkg/bufmodule.ModuleKey#2/resolvedLockEntries": "handed to upgradeModuleKeysToB5 / bufconfig.NewBufLockFile, which sorts the keys (SORT-CONSUMERS obligation)",
 }
 
 // consumers that sort (or index-sort) the slice they receive; each is itself an obligation: its body must sort.
 var c02SortConsumers = map[string]string{
-	"private/pkg/slicesext.IndexedToSortedValues": "sorts by the original index",
-	"private/pkg/slicesext.ToUniqueSorted":        "sorts and de-duplicates",
-	"private/bufpkg/bufcas.NewManifest":           "newManifest sorts file nodes by path",
+	"private/pkg/slicesext.IndexedToSortedValues":     "sorts by the original index",
+	"private/pkg/slicesext.ToUniqueSorted":            "sorts and de-duplicates",
+	"private/bufpkg/bufcas.NewManifest":               "newManifest sorts file nodes by path",
 	"private/bufpkg/bufanalysis.NewFileAnnotationSet": "newFileAnnotationSet sorts and de-duplicates",
-	"private/bufpkg/bufprotosource.SortFiles":     "sorts in place by path",
-	"private/bufpkg/bufconfig.NewBufYAMLFile":     "newBufYAMLFile sorts module configs (stable) and dependency refs",
-	"private/bufpkg/bufconfig.NewBufLockFile":     "newBufLockFile sorts dependency keys",
-	"slices.Sorted":                               "standard library: collects and sorts",
-	"slices.SortedFunc":                           "standard library: collects and sorts",
+	"private/bufpkg/bufprotosource.SortFiles":         "sorts in place by path",
+	"private/bufpkg/bufconfig.NewBufYAMLFile":         "newBufYAMLFile sorts module configs (stable) and dependency refs",
+	"private/bufpkg/bufconfig.NewBufLockFile":         "newBufLockFile sorts dependency keys",
+	"slices.Sorted":     "standard library: collects and sorts",
+	"slices.SortedFunc": "standard library: collects and sorts",
 }
 
 func c02ConsumerSorts(fn *types.Func, arg int) string {
@@ -382,15 +382,15 @@ func isMapOrderSource(fn *types.Func) bool {
 }
 
 var c02SourceTriage = map[string]string{
-	"private/bufpkg/bufcheck.newRulesConfig/MapKeysToSlice":                                                "ids only feed transformRuleOrCategoryIDsToRuleIDs-style set construction (error text order only)",
-	"private/bufpkg/bufmodule.moduleSet.getModuleForFilePathUncached/MapValuesToSlice":                     "only used to build the duplicate-path error",
+	"private/bufpkg/bufcheck.newRulesConfig/MapKeysToSlice":                                                                                     "ids only feed transformRuleOrCategoryIDsToRuleIDs-style set construction (error text order only)",
+	"private/bufpkg/bufmodule.moduleSet.getModuleForFilePathUncached/MapValuesToSlice":                                                          "only used to build the duplicate-path error",
 	"private/bufpkg/bufmodule/bufmoduleapi.moduleDataProvider.getCommitIDToUniversalProtoContentForRegistryAndIndexedModuleKeys/MapKeysToSlice": "commit ids of a batched registry request; the response is re-keyed by commit id",
-	"private/bufpkg/bufmodule/bufmoduleapi.commitProvider.getIndexedCommitsForRegistryAndIndexedModuleKeys/MapKeysToSlice":                       "commit ids of a batched registry request; results are re-indexed and IndexedToSortedValues sorts",
+	"private/bufpkg/bufmodule/bufmoduleapi.commitProvider.getIndexedCommitsForRegistryAndIndexedModuleKeys/MapKeysToSlice":                      "commit ids of a batched registry request; results are re-indexed and IndexedToSortedValues sorts",
 	"private/bufpkg/bufmodule/bufmoduleapi.commitProvider.getIndexedCommitsForRegistryAndIndexedCommitKeys/MapKeysToSlice":                      "commit ids of a batched registry request; results are re-indexed and IndexedToSortedValues sorts",
-	"private/buf/bufmigrate.migrator.buildBufYAMLAndBufLockFiles/MapValuesToSlice":                         "per-dependency candidate lists: resolved ones have length 1; unresolved ones are sorted by resolvedDeclaredAndLockedDependencies (sort.Slice in its loops)",
-	"private/buf/bufmigrate.resolvedDeclaredAndLockedDependencies/MapValuesToSlice":                        "result handed to NewBufYAMLFile which sorts refs",
-	"private/buf/bufworkspace.getMappedModuleBucketAndModuleTargeting/MapKeysToSlice":                     "v1beta1 roots handed to newModuleTargeting: config validation forbids overlapping roots, so at most one root contains any path",
-	"private/buf/cmd/buf/command/breaking.getExternalPathsForImages/MapKeysToSlice":                        "external paths returned to a caller that builds a set of paths to exclude",
+	"private/buf/bufmigrate.migrator.buildBufYAMLAndBufLockFiles/MapValuesToSlice":                                                              "per-dependency candidate lists: resolved ones have length 1; unresolved ones are sorted by resolvedDeclaredAndLockedDependencies (sort.Slice in its loops)",
+	"private/buf/bufmigrate.resolvedDeclaredAndLockedDependencies/MapValuesToSlice":                                                             "result handed to NewBufYAMLFile which sorts refs",
+	"private/buf/bufworkspace.getMappedModuleBucketAndModuleTargeting/MapKeysToSlice":                                                           "v1beta1 roots handed to newModuleTargeting: config validation forbids overlapping roots, so at most one root contains any path",
+	"private/buf/cmd/buf/command/breaking.getExternalPathsForImages/MapKeysToSlice":                                                             "external paths returned to a caller that builds a set of paths to exclude",
 }
 
 func c02Sources(c *Ctx) {
@@ -906,39 +906,39 @@ func c02Encoders(c *Ctx) {
 // ---- (5) entropy ---------------------------------------------------------------------------------------------
 
 var c02EntropyAllowed = map[string]string{
-	"private/pkg/thread":                "Parallelize's documented select between ctx.Done and the semaphore; precedence is re-checked",
-	"private/pkg/tmp":                   "temporary names",
-	"private/pkg/filelock":              "lock retry timing",
-	"private/pkg/slogapp":               "logging",
-	"private/pkg/slogext":               "profiling log lines",
-	"private/pkg/app/appext":            "timeout handling",
-	"private/pkg/netrc":                 "none",
-	"private/pkg/uuidutil":              "UUID v7 generation for new commits (not part of build/lint/format outputs)",
-	"private/pkg/interrupt":             "signal handling",
-	"private/pkg/execext":               "process wait",
-	"private/pkg/git":                   "clone timing",
-	"private/pkg/transport":             "http",
-	"private/pkg/cert":                  "tls",
-	"private/pkg/wasm":                  "plugin runtime timing logs",
-	"private/pkg/pluginrpcutil":         "plugin runtime",
-	"private/bufpkg/bufmodule/bufmoduleapi":  "registry client",
+	"private/pkg/thread":                        "Parallelize's documented select between ctx.Done and the semaphore; precedence is re-checked",
+	"private/pkg/tmp":                           "temporary names",
+	"private/pkg/filelock":                      "lock retry timing",
+	"private/pkg/slogapp":                       "logging",
+	"private/pkg/slogext":                       "profiling log lines",
+	"private/pkg/app/appext":                    "timeout handling",
+	"private/pkg/netrc":                         "none",
+	"private/pkg/uuidutil":                      "UUID v7 generation for new commits (not part of build/lint/format outputs)",
+	"private/pkg/interrupt":                     "signal handling",
+	"private/pkg/execext":                       "process wait",
+	"private/pkg/git":                           "clone timing",
+	"private/pkg/transport":                     "http",
+	"private/pkg/cert":                          "tls",
+	"private/pkg/wasm":                          "plugin runtime timing logs",
+	"private/pkg/pluginrpcutil":                 "plugin runtime",
+	"private/bufpkg/bufmodule/bufmoduleapi":     "registry client",
 	"private/bufpkg/bufmodule/bufmoduletesting": "test helper: synthetic commit times",
-	"private/bufpkg/bufplugin":          "registry/plugin runtime",
-	"private/bufpkg/bufregistryapi":     "registry client",
-	"private/buf/bufctl":                "profiling debug log",
-	"private/buf/bufcli":                "cache / login flows",
-	"private/buf/bufprotopluginexec":    "process execution",
-	"private/buf/bufapp":                "version check",
-	"private/buf/cmd/buf/command/mod":   "deprecated mod commands: init timestamps in templates",
-	"private/buf/cmd/buf/command/push":  "push: create time from git metadata",
-	"private/buf/cmd/buf/command/generate": "none",
-	"private/bufpkg/bufconnect":         "auth",
-	"private/pkg/connectclient":         "rpc",
-	"private/pkg/httpauth":              "auth",
-	"private/pkg/observabilityzap":      "logging",
-	"private/pkg/verbose":               "logging",
+	"private/bufpkg/bufplugin":                  "registry/plugin runtime",
+	"private/bufpkg/bufregistryapi":             "registry client",
+	"private/buf/bufctl":                        "profiling debug log",
+	"private/buf/bufcli":                        "cache / login flows",
+	"private/buf/bufprotopluginexec":            "process execution",
+	"private/buf/bufapp":                        "version check",
+	"private/buf/cmd/buf/command/mod":           "deprecated mod commands: init timestamps in templates",
+	"private/buf/cmd/buf/command/push":          "push: create time from git metadata",
+	"private/buf/cmd/buf/command/generate":      "none",
+	"private/bufpkg/bufconnect":                 "auth",
+	"private/pkg/connectclient":                 "rpc",
+	"private/pkg/httpauth":                      "auth",
+	"private/pkg/observabilityzap":              "logging",
+	"private/pkg/verbose":                       "logging",
 	"private/bufpkg/bufcheck/bufcheckserver/internal/buflintvalidate": "CEL environment construction (time types), not wall clock",
-	"private/bufpkg/bufcheck":           "wasm plugin run-time logging",
+	"private/bufpkg/bufcheck": "wasm plugin run-time logging",
 }
 
 func c02Entropy(c *Ctx) {
